@@ -173,7 +173,7 @@ open Threads.RCache
 /-- `rlock_reentrant_safe`: (a) at most one thread holds the lock at any nesting level;
     (b) the recorded depth is exactly the number of `with self._lock:` blocks the owner is inside;
     (c) the owner can always move, in particular its own nested `get` / `__setitem__` never block. -/
-theorem rlock_reentrant_safe {c : Cfg} (hre : c.reentrant = true) {sv : Nat → Nat} (hsv : Sound c sv)
+theorem rlock_reentrant_safe {c : Cfg} (hre : c.reentrant = true) {sv : Nat → Nat} {bad : Nat → Bool} (hsv : Sound c sv bad)
     {n : Nat} {prog : Tid → List Nat} {s : State} (h : Reach c n prog s) :
     (∀ t u, 0 < held (s.th t).stack → 0 < held (s.th u).stack → t = u) ∧
     (∀ t, s.owner = some t → held (s.th t).stack = s.depth ∧ 0 < s.depth) ∧
@@ -191,7 +191,7 @@ theorem rlock_reentrant_safe {c : Cfg} (hre : c.reentrant = true) {sv : Nat → 
   · intro t ho; exact owner_can_step hre inv ho
 
 /-- no deadlock: while some thread has work left, some thread can move -/
-theorem rlock_no_deadlock {c : Cfg} (hre : c.reentrant = true) {sv : Nat → Nat} (hsv : Sound c sv)
+theorem rlock_no_deadlock {c : Cfg} (hre : c.reentrant = true) {sv : Nat → Nat} {bad : Nat → Bool} (hsv : Sound c sv bad)
     {n : Nat} {prog : Tid → List Nat} {s : State} (h : Reach c n prog s)
     (hw : ∃ t, t < n ∧ active s t = true) : ∃ u, u < n ∧ (step c s u).isSome = true := by
   have inv := reach_inv hre hsv h
@@ -202,29 +202,58 @@ theorem rlock_no_deadlock {c : Cfg} (hre : c.reentrant = true) {sv : Nat → Nat
     exact ⟨t, htn, free_can_step inv ho ha⟩
 
 /-- `cache_agree`: every value returned to any thread and every value stored in the cache is the
-    sequential meaning of its key; raw entries are never lost. -/
-theorem cache_agree {c : Cfg} (hre : c.reentrant = true) {sv : Nat → Nat} (hsv : Sound c sv)
+    sequential meaning of its key, and that key does not raise sequentially; a `get` raises KeyError into a
+    thread only for a key that raises sequentially; raw entries are never lost. -/
+theorem cache_agree {c : Cfg} (hre : c.reentrant = true) {sv : Nat → Nat} {bad : Nat → Bool} (hsv : Sound c sv bad)
     {n : Nat} {prog : Tid → List Nat} {s : State} (h : Reach c n prog s) :
-    (∀ t k v, (k, v) ∈ (s.th t).results → v = sv k) ∧
-    (∀ k v, s.cache k = some (.val v) → v = sv k) ∧
+    (∀ t k v, (k, v) ∈ (s.th t).results → v = sv k ∧ bad k = false) ∧
+    (∀ t k, k ∈ (s.th t).errs → bad k = true) ∧
+    (∀ k v, s.cache k = some (.val v) → v = sv k ∧ bad k = false) ∧
     (∀ k, c.kind k = .raw → s.cache k ≠ none) := by
   have inv := reach_inv hre hsv h
-  exact ⟨inv.results, inv.cacheVal, inv.cacheRaw⟩
+  exact ⟨inv.results, inv.errs, inv.cacheVal, inv.cacheRaw⟩
 
-/-- keys 0,1 raw; key 2 virtual over [0,1]; key 3 virtual over [2,0] (virtual over virtual) -/
-def kinds : Nat → Kind := fun k => if k = 2 then .virt [0, 1] else if k = 3 then .virt [2, 0] else .raw
+/-- `rlock_released_on_every_exit`: a thread that is not inside `get` holds no level of the lock, whether its
+    calls returned or raised (a KeyError for an unknown name, or one passing through a creation function and the
+    enclosing `get`); and once no thread is inside `get` the lock is free, so the next caller is not blocked. -/
+theorem rlock_released_on_every_exit {c : Cfg} (hre : c.reentrant = true) {sv : Nat → Nat} {bad : Nat → Bool}
+    (hsv : Sound c sv bad) {n : Nat} {prog : Tid → List Nat} {s : State} (h : Reach c n prog s) :
+    (∀ t, (s.th t).stack = [] → s.owner ≠ some t) ∧
+    ((∀ t, t < n → (s.th t).stack = []) → s.owner = none ∧ s.depth = 0) := by
+  have inv := reach_inv hre hsv h
+  have h1 : ∀ t, (s.th t).stack = [] → s.owner ≠ some t := by
+    intro t hst ho
+    have := inv.isOwner t ho
+    rw [hst] at this
+    simp [held] at this
+    omega
+  refine ⟨h1, fun hall => ?_⟩
+  cases ho : s.owner with
+  | none => exact ⟨rfl, inv.noOwner ho⟩
+  | some o => exact absurd ho (h1 o (hall o (inv.isOwner o ho).2.2))
+
+/-- keys 0,1 raw; key 2 virtual over [0,1]; key 3 virtual over [2,0] (virtual over virtual); key 5 unknown;
+    key 6 virtual over [0,5] (its creation function raises) -/
+def kinds : Nat → Kind := fun k =>
+  if k = 2 then .virt [0, 1] else if k = 3 then .virt [2, 0] else if k = 5 then .missing
+  else if k = 6 then .virt [0, 5] else .raw
 def cR : Cfg := ⟨true, kinds, fun k => 10 * k + 1, fun k vs => 1000 * k + vs.foldl (· + ·) 0⟩
 def cL : Cfg := { cR with reentrant := false }
 def svR : Nat → Nat := seqVal cR 3
+def badR : Nat → Bool := seqBad cR 3
 
 -- non-vacuity: the hypothesis `Sound` is satisfiable for a graph with nested virtual sensors
-example : Sound cR svR := by
+example : Sound cR svR badR := by
   intro k
   by_cases h3 : k = 3
-  · subst h3; show svR 3 = cR.vf 3 (List.map svR [2, 0]); decide
+  · subst h3; show badR 3 = [2, 0].any badR ∧ (badR 3 = false → svR 3 = cR.vf 3 (List.map svR [2, 0])); decide
   · by_cases h2 : k = 2
-    · subst h2; show svR 2 = cR.vf 2 (List.map svR [0, 1]); decide
-    · simp [cR, kinds, h2, h3, svR, seqVal]
+    · subst h2; show badR 2 = [0, 1].any badR ∧ (badR 2 = false → svR 2 = cR.vf 2 (List.map svR [0, 1])); decide
+    · by_cases h5 : k = 5
+      · subst h5; show badR 5 = true; decide
+      · by_cases h6 : k = 6
+        · subst h6; show badR 6 = [0, 5].any badR ∧ (badR 6 = false → svR 6 = cR.vf 6 (List.map svR [0, 5])); decide
+        · simp [cR, kinds, h2, h3, h5, h6, svR, badR, seqVal, seqBad]
 
 def progR : Tid → List Nat := fun t => if t = 0 then [3] else if t = 1 then [2, 0] else []
 
@@ -235,6 +264,25 @@ example : (run cR (init cR progR) (List.replicate 37 0 ++ List.replicate 10 1)).
     some ([(3, svR 3)], [(2, svR 2), (0, svR 0)], none, 0) := by decide
 example : (run cR (init cR progR) (List.replicate 8 0)).map (fun s => (s.owner, s.depth)) =
     some (some 0, 3) := by decide
+
+def progE : Tid → List Nat := fun t => if t = 0 then [5, 6, 1] else if t = 1 then [6, 3] else []
+
+-- non-vacuity of the error paths: thread 0 asks for an unknown name, then for a virtual sensor whose creation
+-- raises (the KeyError passes through two `with` blocks), then for a raw sensor; thread 1 interleaved does the
+-- same virtual sensor and a good one.  Every raise is recorded, every value is sequential, the lock ends free.
+
+-- non-vacuity of the error paths: thread 0 asks for an unknown name, then for a virtual sensor whose creation
+-- raises (the KeyError passes through two `with` blocks), then for a raw sensor; thread 1 interleaved does the
+-- same virtual sensor and a good one.  Every raise is recorded, every value is sequential, the lock ends free.
+def schedE : List Tid := List.replicate 5 0 ++ List.replicate 1 1 ++ List.replicate 24 0 ++ List.replicate 47 1
+example : (run cR (init cR progE) schedE).map (fun s => ((s.th 0).results, (s.th 0).errs)) =
+    some ([(1, svR 1)], [5, 6]) := by decide
+example : (run cR (init cR progE) schedE).map (fun s => ((s.th 1).results, (s.th 1).errs)) =
+    some ([(3, svR 3)], [6]) := by decide
+example : (run cR (init cR progE) schedE).map (fun s => (s.owner, s.depth)) = some (none, 0) := by decide
+-- inside the failing creation function the lock is held twice by thread 0
+example : (run cR (init cR progE) (List.replicate 17 0)).map (fun s => (s.owner, s.depth, (s.th 0).errs)) =
+    some (some 0, 2, [5]) := by decide
 
 /-- with a plain `Lock` the first nested `get` of a virtual sensor blocks its own thread for ever:
     after 4 steps thread 0 holds the lock, has work left and cannot move (single thread ⇒ deadlock) -/
